@@ -128,79 +128,53 @@ def idx_adj(ctx):
     """List::insert_index / delete_index, GList::insert / insert_after / insert_before: bounds adjacent to the requested position."""
     facts = ctx.facts
     # ---------------- List::insert_index
+    from .posalg import PosAlg, index_atoms, NONE as PNONE, WORLDS
     body = ctx.inherent(LIST, 'insert_index')
     it = interp(facts, body)
     sites = [bb for bb, c in it.calls.items() if call_name(c.term) == 'between' and len(c.args) == 3]
+
+    def is_index(x):
+        x = drop_lv(x)
+        return _is_clamp(x, 'seq') or value_path(x) == (2, ())
     if len(sites) != 1:
         ctx.shape('List::insert_index', body, 'exactly one Identifier::between call expected, found %d' % len(sites))
     else:
         bb = sites[0]
-
-        def is_index(x):
-            x = drop_lv(x)
-            return _is_clamp(x, 'seq') or value_path(x) == (2, ())
-
-        def atom(t):
-            # the two worlds: requested (clamped) index positive / zero.  `ix.checked_sub(1)` is Some exactly when it is positive;
-            # comparisons of the index with 0 / 1 are decided the same way
-            if t[0] == 'discr' and is_call(drop_lv(t[1]), 'checked_sub') and is_index(drop_lv(t[1])[2][0]):
-                k = idx_norm(drop_lv(t[1])[2][1])
-                if k and k[0] is None and k[1] == 1:
-                    return ('map', 'positive', {True: 1, False: 0})
-            if t[0] == 'binop' and t[1] in ('Eq', 'Ne', 'Gt', 'Lt', 'Ge', 'Le'):
-                a, b = drop_lv(t[2]), drop_lv(t[3])
-                op = t[1]
-                if is_index(b) and a[0] == 'const':
-                    a, b, op = b, a, {'Gt': 'Lt', 'Lt': 'Gt', 'Ge': 'Le', 'Le': 'Ge'}.get(op, op)
-                if is_index(a) and b[0] == 'const' and b[1] in (0, 1) and not isinstance(b[1], bool):
-                    k = b[1]
-                    tab = {('Eq', 0): (False, True), ('Ne', 0): (True, False), ('Gt', 0): (True, False), ('Le', 0): (False, True),
-                           ('Ge', 1): (True, False), ('Lt', 1): (False, True), ('Ge', 0): (True, True), ('Lt', 0): (False, False)}.get((op, k))
-                    if tab:
-                        return ('map', 'positive', {True: tab[0], False: tab[1]})
-            return None
         errs = []
-        clamp_seen = False
-        for positive in (True, False):
-            rc = Reach(facts, body, Evaluator(facts, bool_atom=atom, assumption={'positive': positive}))
+        want = {'empty': (PNONE, PNONE), 'zero': (PNONE, ('abs', 0)), 'mid': (('I', -1), ('I', 0)), 'end': (('last', 0), PNONE)}
+        words = {'empty': 'an empty list', 'zero': 'index 0', 'mid': 'an index inside the list', 'end': 'the index just past the last element'}
+        clamped = False
+        for w in WORLDS:
+            alg = PosAlg(facts, 'seq', is_index, world=w)
+            rc = Reach(facts, body, Evaluator(facts, bool_atom=index_atoms(alg, is_index), assumption={'w': True}))
             if bb not in rc.reachable:
-                errs.append('the identifier request is unreachable for %s index' % ('a positive' if positive else 'index 0'))
+                errs.append('the identifier request is unreachable for %s' % words[w])
                 continue
-            prevs = [pos_of(inline_option_maps(facts, a), 'seq') for a in rc.arg_terms(bb, 0)]
-            nexts = [pos_of(inline_option_maps(facts, a), 'seq') for a in rc.arg_terms(bb, 1)]
-            if any(p is None for p in prevs + nexts) or len(set(prevs)) != 1 or len(set(nexts)) != 1:
-                errs.append('the bounds passed to between are not positions of one walk over all keys of self.seq (index %s: %s / %s)'
-                            % ('> 0' if positive else '0', [fmt(drop_lv(a), 5) for a in rc.arg_terms(bb, 0)][:2], [fmt(drop_lv(a), 5) for a in rc.arg_terms(bb, 1)][:2]))
-                continue
-            p, n = prevs[0], nexts[0]
-            if positive:
-                if p == NONE or n == NONE or p[1] != n[1] or n[2] != p[2] + 1:
-                    errs.append('for a positive index the two bounds are not consecutive elements (%s, %s)' % (p, n))
-                elif p[1] is None or p[2] != -1:
-                    errs.append('for a positive index i the lower bound is not the (i-1)-th element (%s)' % (p,))
-                else:
-                    clamp_seen = _is_clamp(p[1], 'seq')
-                    if not clamp_seen and value_path(drop_lv(p[1])) == (2, ()):
-                        errs.append('the index is not clamped to the length: an index beyond the end finds no neighbours and the element '
-                                    'is not appended')
-                    elif not clamp_seen:
-                        errs.append('the position is not derived from the requested index (%s)' % fmt(p[1], 4))
-            else:
-                # index 0: no lower bound (None, or the (i-1)-th looked up through checked_sub, which is None at 0); upper = first
-                p_none = p == NONE or (p[2] == -1 and p[1] is not None and (_is_clamp(p[1], 'seq') or value_path(drop_lv(p[1])) == (2, ()))
-                                       and any(_via_checked(a) for a in rc.arg_terms(bb, 0)))
-                if not p_none or n == NONE or n[2] != 0 or (n[1] is not None and not _is_clamp(n[1], 'seq') and value_path(drop_lv(n[1])) != (2, ())):
-                    errs.append('for index 0 the bounds are not (None, first element): %s, %s' % (p, n))
+            for which, ai in (('lower', 0), ('upper', 1)):
+                alts = rc.arg_terms(bb, ai)
+                got = set()
+                for a in alts:
+                    for a2 in phi_alts(drop_lv(inline_option_maps(facts, a))):
+                        p = alg.apos(a2)
+                        got.add(alg.canon(p) if p is not None else None)
+                        clamped = clamped or any(_is_clamp(st, 'seq') for st in subterms(drop_lv(a2)))
+                if got != {want[w][ai]}:
+                    errs.append('for %s the %s bound passed to between is %s, expected %s  (%s)' % (
+                        words[w], which, sorted(map(str, got)), want[w][ai], [fmt(drop_lv(a), 4) for a in alts][:2]))
+        if not errs and not clamped:
+            errs.append('the index is not clamped to the length: an index beyond the end finds no neighbours and the element is not appended')
         ctx.check(not errs, 'List::insert_index', body, 'between((i-1)-th, i-th) of the walk over seq, i clamped to len', errs[0] if errs else '',
                   line=block_line(it, bb))
     # ---------------- List::delete_index
     body = ctx.inherent(LIST, 'delete_index')
-    r = drop_lv(inline_option_maps(facts, interp(facts, body).ret))
+    r = drop_lv(inline_option_maps(facts, normal(facts, interp(facts, body).ret)))
     ids = [dict(st[3]).get('id') for st in subterms(r) if st[0] == 'agg' and st[1].endswith('list::Op') and st[2] == 'Delete']
-    ok = bool(ids) and all(i is not None and pos_of(i, 'seq') is not None and pos_of(i, 'seq') != NONE and pos_of(i, 'seq')[2] == 0
-                           and pos_of(i, 'seq')[1] is not None and value_path(drop_lv(pos_of(i, 'seq')[1])) == (2, ()) for i in ids)
+    alg = PosAlg(facts, 'seq', lambda x: value_path(drop_lv(x)) == (2, ()))
+    ps = [alg.apos(i) for i in ids if i is not None]
+    ps = [p_[1] if p_ and p_[0] == 'enum' else p_ for p_ in ps]
+    ok = bool(ps) and all(p_ == ('pos', 'I', 0) for p_ in ps)
     ctx.check(ok, 'List::delete_index', body, 'Delete names the ix-th identifier of the walk over seq',
-              'List::delete_index builds %s: the id is not the ix-th key of self.seq' % fmt(r, 6))
+              'List::delete_index builds %s: the id is %s, not the ix-th key of self.seq' % (fmt(r, 6), ps))
     # ---------------- List::position_entry: the index at which the walk over seq meets the given identifier
     body = ctx.inherent(LIST, 'position_entry')
     r = drop_lv(normal(facts, interp(facts, body).ret))
@@ -237,33 +211,41 @@ def idx_adj(ctx):
     ctx.check(ok, 'List::position_entry', body, 'index of the identifier equal to the argument in the walk over seq', 'List::position_entry: ' + why)
     # ---------------- GList::insert
     body = ctx.inherent(GLIST, 'insert')
-    r = drop_lv(inline_option_maps(facts, interp(facts, body).ret))
-    alts = phi_alts(r)
-    after = [a for a in alts if is_call(a, 'insert_after') and len(a[2]) == 3]
-    before = [a for a in alts if is_call(a, 'insert_before') and len(a[2]) == 3]
+    it = interp(facts, body)
 
-    def glist_pos(t, some_only=False):
-        t = _strip_copy(t)
-        if t[0] == 'phi':
-            alts_ = [a for a in t[1] if not (some_only and a[0] == 'agg' and a[1].endswith('option::Option') and a[2] == 'None')]
-            ps = set(glist_pos(a, some_only) for a in alts_)
-            return ps.pop() if len(ps) == 1 else None
-        for _ in range(3):
-            if t[0] == 'agg' and t[2] == 'Some' and t[3]:
-                t = _strip_copy(t[3][0][1])
-            elif t[0] == 'field' and t[2] == 'Some.0':
-                t = _strip_copy(t[1])
-        if is_call(t, 'get', self_adt='GList') and len(t[2]) == 2 and value_path(drop_lv(t[2][0])) == (1, ()):
-            return idx_norm(t[2][1])
-        p = pos_of(t, 'list')
-        return (p[1], p[2]) if p and p != NONE else None
-    ok = len(after) == 1 and len(before) == 1 and len(alts) == 2
-    why = 'expected insert_after(Some(get(idx-1))) or else insert_before(get(idx)), found %s' % fmt(r, 6)
-    if ok:
-        pa, pb = glist_pos(after[0][2][1], some_only=True), glist_pos(before[0][2][1])
-        ok = bool(pa and pb and pa[0] is not None and pa[0] == pb[0] and value_path(drop_lv(pa[0])) == (2, ()) and pa[1] == -1 and pb[1] == 0)
-        why = 'the anchors are positions %s and %s, expected idx-1 and idx' % (pa, pb)
-    ctx.check(ok, 'GList::insert', body, 'after the (idx-1)-th element, or before the idx-th when there is none', 'GList::insert: ' + why)
+    def is_idx(x):
+        return value_path(drop_lv(x)) == (2, ())
+
+    def is_get(t):
+        return is_call(t, 'get', self_adt='GList') and len(t[2]) == 2 and value_path(drop_lv(t[2][0])) == (1, ())
+    afters = [bb for bb, c in it.calls.items() if is_call(c.term, 'insert_after') and len(c.args) == 3]
+    befores = [bb for bb, c in it.calls.items() if is_call(c.term, 'insert_before') and len(c.args) == 3]
+    errs = []
+    if not afters or not befores:
+        errs.append('expected insert_after(Some(get(idx-1))) and insert_before(get(idx)) calls')
+    else:
+        for w in WORLDS:
+            alg = PosAlg(facts, 'list', is_idx, world=w, get_fn=is_get)
+            rc = Reach(facts, body, Evaluator(facts, bool_atom=index_atoms(alg, is_idx), assumption={'w': True}))
+            ra, rb = [b for b in afters if b in rc.reachable], [b for b in befores if b in rc.reachable]
+            if not ra and not rb:
+                errs.append('no insertion is reachable for %s' % w)
+            for b in ra:
+                got = set(alg.canon(alg.apos(a2)) for a in rc.arg_terms(b, 1) for a2 in phi_alts(drop_lv(a))
+                          if not (drop_lv(a2)[0] == 'agg' and drop_lv(a2)[2] == 'None' and len(phi_alts(drop_lv(a))) > 1))
+                wantp = {'mid': ('I', -1), 'end': ('last', 0)}.get(w)
+                if w in ('zero', 'empty') or got != {wantp}:
+                    errs.append('insert_after is reached with anchor %s for %s (expected the (idx-1)-th element, only for idx > 0)' % (sorted(map(str, got)), w))
+            for b in rb:
+                got = set(alg.canon(alg.apos(a2)) for a in rc.arg_terms(b, 1) for a2 in phi_alts(drop_lv(a)))
+                if w in ('zero', 'empty'):
+                    if got != {('abs', 0) if w == 'zero' else PNONE}:
+                        errs.append('at index 0 insert_before is anchored at %s, expected the first element' % sorted(map(str, got)))
+                else:
+                    errs.append('insert_before is reachable for a positive index although the (idx-1)-th element exists')
+            if w in ('mid', 'end') and not ra:
+                errs.append('for a positive index (%s) the element is not inserted after the (idx-1)-th element' % w)
+    ctx.check(not errs, 'GList::insert', body, 'after the (idx-1)-th element, or before the idx-th when there is none', 'GList::insert: ' + (errs[0] if errs else ''))
     # ---------------- GList::insert_after / insert_before: the other bound is the adjacent element
     for name, anchor_arg, other_arg, lower in (('insert_after', 0, 1, True), ('insert_before', 1, 0, False)):
         body = ctx.inherent(GLIST, name)
@@ -276,19 +258,22 @@ def idx_adj(ctx):
             why = 'the anchor passed to between is not the given identifier'
             if value_path(anchor) == (2, ()):
                 ok, why = _adjacent(facts, other, lower)
+                if ok:
+                    ok, why = _loop_guard_ok(facts, body, lower)
         ctx.check(ok, 'GList::' + name, body, 'between(anchor, %s element of the list)' % ('next' if lower else 'previous') if lower
                   else 'between(previous element of the list, anchor)', 'GList::%s: %s' % (name, why))
 
 
 def _adjacent(facts, t, after):
     """t selects the element of self.list adjacent to the anchor (param 2): the first one above it / the last one below it."""
-    t = _strip_copy(t)
+    from .posalg import _strip as _pstrip
+    t = _pstrip(t)
     if t[0] == 'phi':
         # `match anchor { Some(a) => <selection>, None => None }`: without an anchor there is no other bound
         alts_ = [a for a in t[1] if not (a[0] == 'agg' and a[1].endswith('option::Option') and a[2] == 'None')]
         if len(alts_) != 1:
             return False, 'the other bound has several unrelated alternatives'
-        t = _strip_copy(alts_[0])
+        t = _pstrip(alts_[0])
     sel = call_name(t) if t[0] == 'call' else None
     if sel == 'rfind':
         sel, t = 'find', ('call', t[1], (('call', '~rev', (t[2][0],)),) + tuple(t[2][1:]))
@@ -346,4 +331,37 @@ def _adjacent(facts, t, after):
         if v is not True:
             return False, 'the find predicate rejects elements of the range (it is %s for an element %s the anchor): no adjacent element is found' % (
                 v, 'above' if after else 'below')
+    return True, ''
+
+
+def _loop_guard_ok(facts, body, after):
+    """When the adjacent element is picked by an explicit loop over the range (hand-written, or a `find` spliced into a loop),
+    the first element of the range must be taken: with the walked element above (below) the anchor - which the range
+    guarantees - every path through the loop body leaves the loop instead of moving on to the next element."""
+    from .loops import loops_of
+    it = interp(facts, body)
+    for lp in loops_of(it):
+        src = drop_lv(lp.src)
+        if not any(is_call(st, 'range') and len(st[2]) == 2 and param_path(st[2][0]) == (1, ('list',)) for st in subterms(src)):
+            continue
+
+        def classify(a, b_, tt, lp=lp):
+            from .loops import item_derived
+            for x, y, orient in ((a, b_, 'fwd'), (b_, a, 'rev')):
+                vy = value_path(drop_lv(y))
+                if item_derived(x, lp) and vy in ((2, ()), (2, ('Some.0',))):
+                    return ('rel', orient)
+            return None
+        rc = Reach(facts, body, Evaluator(facts, classify=classify, assumption={'rel': GT if after else LT}))
+        # forward reachability from the loop body in the pruned graph: the loop head must not come back
+        seen, stack = set(), [lp.start]
+        while stack:
+            x = stack.pop()
+            if x in seen:
+                continue
+            seen.add(x)
+            stack.extend(y for y in rc.edges.get(x, []) if y not in seen)
+        if lp.head in seen:
+            return False, 'the loop over the range can skip an element that lies %s the anchor: the element taken is not adjacent' % (
+                'above' if after else 'below')
     return True, ''
